@@ -605,6 +605,12 @@ def get_provider_ids_matching(rg_ctx):
         # would return the internal ID and the root ID as well for each RP.
         provs_with_resource = get_providers_with_root(
             rg_ctx.context, filtered_rps, forbidden_rp_ids)
+        if rg_ctx.tree_root_id is not None:
+            # The in_tree<S> restriction is otherwise applied by the per-class
+            # capacity query, which a resourceless group never runs.
+            provs_with_resource = set(
+                rpids for rpids in provs_with_resource
+                if rpids[1] == rg_ctx.tree_root_id)
 
     # provs_with_resource will contain a superset of providers with IDs still
     # in our filtered_rps set. We return the list of tuples of
